@@ -1,12 +1,12 @@
 package props
 
 import (
-	"github.com/influxdata/kapacitor/zz_sim/simtime"
-	_ "time/tzdata" // the zone database, independent of the machine
 	"errors"
 	"fmt"
+	"github.com/influxdata/kapacitor/zz_sim/simtime"
 	"strings"
 	"time"
+	_ "time/tzdata" // the zone database, independent of the machine
 
 	"github.com/influxdata/influxdb/models"
 	"github.com/influxdata/influxql"
